@@ -158,29 +158,95 @@ def rule_send_refusal(ctx):
 
 
 def rule_bounded_decompress(ctx):
+    """A size-bounded inflate must never hand out a silently truncated message: either the unread input is inspected
+    (unconsumed_tail / eof idiom) or one octet more than the allowance is requested and an excess raises before the data
+    is returned; the protocol turns that error into 1009 and delivers nothing."""
+    from ..core.terms import TermEval, show, subterms
     ctx.rule("C16.4-bounded-decompress-pairing")
+    p = ctx.program
     found = 0
     for mn in ("compress_deflate", "compress_bzip2", "compress_brotli", "compress_snappy"):
-        m = ctx.program.modules.get(f"autobahn.websocket.{mn}")
+        m = p.modules.get(f"autobahn.websocket.{mn}")
         if m is None:
             continue
         for c in m.classes.values():
             for f in c.methods.values():
-                for call in calls_in(f.node):
-                    if isinstance(call.func, ast.Attribute) and call.func.attr == "decompress" and (
-                            len(call.args) >= 2 or any(k.arg == "max_length" for k in call.keywords)):
-                        found += 1
-                        ctx.analysed(f)
-                        inspected = any(isinstance(n, ast.Attribute) and n.attr in ("unconsumed_tail", "eof", "needs_input")
-                                        for ff in c.methods.values() for n in ast.walk(ff.node))
-                        ctx.ob(f"{c.qualname}.{f.name}: bounded decompress() inspects unconsumed_tail", inspected,
-                               "decompress(data, max_length) drops everything beyond max_length silently: the over-limit message is "
-                               "delivered truncated and the decompressor keeps the unread tail (corrupting later messages)", f.loc(call))
+                sites = [call for call in calls_in(f.node) if isinstance(call.func, ast.Attribute) and call.func.attr == "decompress" and
+                         (len(call.args) >= 2 or any(k.arg == "max_length" for k in call.keywords))]
+                if not sites:
+                    continue
+                found += len(sites)
+                ctx.analysed(f)
+                name = f"{c.qualname}.{f.name}"
+                tail_idiom = any(isinstance(n, ast.Attribute) and n.attr in ("unconsumed_tail", "eof", "needs_input") for n in ast.walk(f.node))
+                te = TermEval(p, f, inline=lambda call, fn: None).run()
+                rets = [o for o in te.outcomes if o.kind == "return"]
+                raises = [o for o in te.outcomes if o.kind == "raise"]
+
+                def bounded(t):
+                    return [x for x in subterms(t) if x[0] == "m" and x[2] == "decompress" and (len(x[3]) >= 2 or any(k[1] == "max_length" for k in x[4]))]
+
+                def limit_cmps(conds):
+                    out = []
+                    for cnd, pol in conds:
+                        for x in subterms(cnd):
+                            if x[0] == "cmp" and x[1] in (">", ">=", "<", "<=") and any(y[0] == "attr" and y[2] == "max_message_size" for z in x[2:] for y in subterms(z)) \
+                                    and any(y[0] == "call" and y[1] == ("g", "len") and bounded(y) for z in x[2:] for y in subterms(z)):
+                                out.append((x, pol))
+                    return out
+                for o in rets:
+                    b = bounded(o.term)
+                    if not b:
+                        continue
+                    guarded = bool(limit_cmps(o.conds))
+                    ctx.ob(f"{name}: bounded decompress() output is returned only after the produced length was compared with the limit (or the unread tail inspected)",
+                           guarded or tail_idiom,
+                           "decompress(data, max_length) drops everything beyond max_length silently: the over-limit message is delivered truncated and the "
+                           "decompressor keeps the unread tail (corrupting later messages)", f.loc(o.node))
+                    if guarded and not tail_idiom:
+                        # the requested bound must exceed the remaining allowance, else an overflow is indistinguishable from an exact fit
+                        bound = b[0][3][1] if len(b[0][3]) >= 2 else dict((k[1], k[2]) for k in b[0][4]).get("max_length")
+                        plus_one = bound[0] == "op" and bound[1] == "+" and ("c", 1) in bound[2:] and \
+                            any(y[0] == "attr" and y[2] == "max_message_size" for y in subterms(bound))
+                        ctx.ob(f"{name}: the inflater is asked for one octet more than the message may still grow", plus_one,
+                               f"bound is {show(bound)}: with a bound equal to the allowance, an over-limit message is cut at the limit and cannot be told from one that fits",
+                               f.loc(o.node))
+                if not tail_idiom:
+                    exc = [o for o in raises if limit_cmps(o.conds)]
+                    ctx.ob(f"{name}: exceeding the limit raises instead of returning data", bool(exc) and all("PayloadExceededError" in show(o.term) for o in exc),
+                           "no raise under `produced > max_message_size`", f.loc())
     ctx.per_rule[ctx.cur_rule]["bounded_decompress_sites"] = found
     # the embedded positive example keeps the rule from passing vacuously if the pattern stops matching
     probe = ast.parse("class X:\n def d(self, data):\n  return self._d.decompress(data, self.max)\n")
     hits = [c for c in ast.walk(probe) if isinstance(c, ast.Call) and isinstance(c.func, ast.Attribute) and c.func.attr == "decompress" and len(c.args) >= 2]
     ctx.require(len(hits) == 1, "bounded-decompress matcher lost its positive example")
+    # protocol side: the error becomes 1009 and nothing of that message is delivered
+    fn = p.func(f"{WSP}.onFrameData")
+    ctx.analysed(fn)
+    an = get_analysis(ctx)
+    g, mf, res = an.get(fn)
+    dn = [(n, c) for n in g.stmt_nodes() for c in node_calls(n) if norm.text(c.func) == "self._perMessageCompress.decompress_message_data"]
+    ctx.require(len(dn) == 1, "onFrameData: decompress_message_data call not found")
+    raises_pe = found > 0 and any("PayloadExceededError" in ast.unparse(f.node) for mn in ("compress_deflate",) for c in p.modules[f"autobahn.websocket.{mn}"].classes.values()
+                                  for f in c.methods.values() if f.name == "decompress_message_data")
+    if raises_pe:
+        hs = [m_ for m_, lab in dn[0][0].succ if lab and lab[0] == "exc"]
+        hs = [h for h in hs if h.ast.type is not None and "PayloadExceededError" in norm.text(h.ast.type)]
+        ctx.ob("onFrameData: an over-limit decompressed message is caught where it is inflated", len(hs) == 1,
+               "PayloadExceededError from the PMCE escapes onFrameData (into dataReceived)", fn.loc(dn[0][1]))
+        if hs:
+            body_calls = [c for b in hs[0].ast.body for c in ast.walk(b) if isinstance(c, ast.Call)]
+            ctx.ob("onFrameData: the connection is failed with 1009 (message too big)", any(self_call(c, "_max_message_size_exceeded") for c in body_calls),
+                   "handler does not call _max_message_size_exceeded", fn.loc(hs[0].ast))
+            # after the handler nothing of the inflated data survives: either return False or payload replaced by empty bytes
+            ends = []
+            for b in hs[0].ast.body:
+                for x in ast.walk(b):
+                    if isinstance(x, ast.Assign) and norm.text(x.targets[0]) == "payload":
+                        ends.append(norm.text(x.value))
+            last = hs[0].ast.body[-1]
+            ok = (isinstance(last, ast.Return)) or (ends and ends[-1] in ("b''", 'b""'))
+            ctx.ob("onFrameData: nothing of the over-limit message is passed on", bool(ok), "handler falls through with the partial payload", fn.loc(hs[0].ast))
 
 
 def run(ctx):
